@@ -41,7 +41,7 @@ def analysis(ctx):
             for a in ("dlt::TypeLength", "dlt::FloatWidth"):
                 if a in F.adts:
                     wn |= {v["name"] for v in F.adts[a]["variants"]}
-            eng.keep_key = lambda x, fr: x[0] in ("bit", "find", "tag", "tab") or (x[0] == "variant" and set(str(x[2]).split("|")) <= wn)
+            eng.keep_key = lambda x, fr: x[0] in ("bit", "find", "tag", "tab", "bits_eq") or (x[0] == "variant" and set(str(x[2]).split("|")) <= wn)
             outs = eng.call_path(ARG, eng.symbolic_args(b, names=["input"]))
             _cache[k] = (eng, outs)
     return _cache[k]
